@@ -95,6 +95,8 @@ TestPlugin* TestPlugin::removePluginByName(const SimpleString& name)
         removed = next_;
         next_ = next_->next_;
     }
+    else if (next_)
+        removed = next_->removePluginByName(name);
     return removed;
 }
 
